@@ -354,7 +354,13 @@ func main() {
 			op.Es = append(op.Es, storeh.Ent{A: t, B: ht})
 			ht++
 		}
-		bh.Ops = []Op{op}
+		// ... and the filter headers of the same blocks, again in one call
+		// (header import writes batches of this size to both stores)
+		fop := Op{Kind: "fwrite", WF: true}
+		for i, en := range op.Es[:2500] {
+			fop.Es = append(fop.Es, storeh.Ent{A: storeh.FilterBase + 1 + int64(i)%int64(len(bigPool.Filters)-1), B: en.A})
+		}
+		bh.Ops = []Op{op, fop}
 		bigHist = &bh
 	}
 	hs := make([]History, n)
@@ -379,7 +385,7 @@ func main() {
 	wg.Wait()
 	var big History
 	if bigHist != nil {
-		big = runHistory(bigID, a.Seed, 1, 0, base, bigPool, bigHist)
+		big = runHistory(bigID, a.Seed, 2, 0, base, bigPool, bigHist)
 	}
 
 	var all []Case
@@ -394,25 +400,28 @@ func main() {
 	shard := 0
 	distinct := c.Signatures{}
 	if len(big.Cases) > 0 {
-		// the big-batch cases use the big pool's tokens: their own file
-		var sb strings.Builder
-		sb.WriteString("From Coq Require Import ZArith List.\nFrom Verif Require Import S1.Model C08.Model C08.Replay.\nImport ListNotations.\nOpen Scope Z_scope.\n")
-		sb.WriteString(fmt.Sprintf("Definition genesis : Z := %d.\nDefinition gfh : Z := %d.\n", bigPool.Genesis, bigPool.GenesisFilter))
-		sb.WriteString("Definition cases : list ccase := [\n")
-		for i := range big.Cases {
-			cs := &big.Cases[i]
-			if i > 0 {
-				sb.WriteString(";\n")
+		// the big-batch cases use the big pool's tokens: their own files
+		// (two cases per file: the files are evaluated in parallel)
+		for part := 0; part*2 < len(big.Cases); part++ {
+			var sb strings.Builder
+			sb.WriteString("From Coq Require Import ZArith List.\nFrom Verif Require Import S1.Model C08.Model C08.Replay.\nImport ListNotations.\nOpen Scope Z_scope.\n")
+			sb.WriteString(fmt.Sprintf("Definition genesis : Z := %d.\nDefinition gfh : Z := %d.\n", bigPool.Genesis, bigPool.GenesisFilter))
+			sb.WriteString("Definition cases : list ccase := [\n")
+			for i := part * 2; i < part*2+2 && i < len(big.Cases); i++ {
+				cs := &big.Cases[i]
+				if i > part*2 {
+					sb.WriteString(";\n")
+				}
+				torn := "None"
+				if cs.Torn >= 0 {
+					torn = c.Some(c.Z(cs.Torn))
+				}
+				sb.WriteString(fmt.Sprintf("{| cid := %d; prefix := %s; cop := %s; ck := %d; ctorn := %s; ckinds := %s; post := %s |}",
+					cs.ID, trace(cs.Prefix), storeh.OpTerm(&cs.Cop), cs.K, torn, c.Ints(cs.Kinds), trace(cs.Post)))
 			}
-			torn := "None"
-			if cs.Torn >= 0 {
-				torn = c.Some(c.Z(cs.Torn))
-			}
-			sb.WriteString(fmt.Sprintf("{| cid := %d; prefix := %s; cop := %s; ck := %d; ctorn := %s; ckinds := %s; post := %s |}",
-				cs.ID, trace(cs.Prefix), storeh.OpTerm(&cs.Cop), cs.K, torn, c.Ints(cs.Kinds), trace(cs.Post)))
+			sb.WriteString("].\nDefinition R := Eval vm_compute in (run_cases genesis gfh cases).\nSet Printing Width 1000000.\nSet Printing Depth 1000000.\nPrint R.\n")
+			c.WriteFile(filepath.Join(a.Out, fmt.Sprintf("cases_big%d.v", part)), sb.String())
 		}
-		sb.WriteString("].\nDefinition R := Eval vm_compute in (run_cases genesis gfh cases).\nSet Printing Width 1000000.\nSet Printing Depth 1000000.\nPrint R.\n")
-		c.WriteFile(filepath.Join(a.Out, "cases_big.v"), sb.String())
 		p := filepath.Join(a.Out, fmt.Sprintf("hist-%d.json", big.ID))
 		c.WriteJSON(p, big)
 		for _, cs := range big.Cases {
